@@ -284,6 +284,9 @@ type c30Res struct {
 	Exited bool   `json:"exited"`
 	Vars   string `json:"vars"`
 	Panic  string `json:"panic,omitempty"`
+	// varsAfterTrap (statement-wise runs with a pending EXIT trap only) is
+	// the Vars dump after the trap was made to run.
+	varsAfterTrap string
 }
 
 func c30ErrText(err error) string {
@@ -391,9 +394,9 @@ func c30(c *vc.Ctx) {
 	c.Reruns = 2
 	st := &c30Stats{states: map[string]bool{}, trans: map[string]bool{}, level: map[string]string{}}
 	pol, obs := c30Polluters, c30Observers
-	replayDepth := 2              // up to here the history is replayed for each observer separately
-	fullDepth := vc.Pick(c, 2, 3) // every history up to this length, every configuration
-	maxDepth := vc.Pick(c, 3, 4)  // then one more level from the distinct states only
+	replayDepth := vc.Pick(c, 1, 2) // up to here the history is replayed for each observer separately
+	fullDepth := vc.Pick(c, 2, 3)   // every history up to this length, every configuration
+	maxDepth := vc.Pick(c, 3, 4)    // then one more level from the distinct states only
 	ncfg := len(c30Cfgs)
 	deepCfgs := 1 // the pruned levels are explored for the first configuration(s) only
 
@@ -412,7 +415,7 @@ func c30(c *vc.Ctx) {
 	}
 
 	incrNote := c30IncrPrograms(c, nil)
-	c.Rule = fmt.Sprintf("clause 1 (explicit-state search on one real Runner): histories over %d state-polluting operations (whole-file Run of a program; %d of them are statement-at-a-time Runs, a Run under a cancelled context, or an extra Reset) x %d constructor configurations (Params/Env/Dir/StdIO/Interactive/ExecHandlers/OpenHandler); EVERY history of length <= %d is executed, then Reset, then each of %d observer programs P, compared (stdout, stderr, returned error, sorted Runner.Vars) with P on a brand-new Runner with the same options (histories of length <= %d: replayed on a new Runner for each P separately; longer ones: the observers run in sequence on the one Runner with a Reset before each, rotated start); for lengths %d..%d, the one-operation extensions of the smallest history of each DISTINCT canonical state of the previous level are all executed, and Reset+observers are run from every extension that reaches a canonical state not seen before (state = reflection dump of all non-constructor Runner fields before Reset), for the first %d configuration(s). clause 2: %s; each parsed once, run (a) whole file twice (programs whose two whole-file runs differ are skipped as nondeterministic), (b) Stmt by Stmt on one Runner stopping at Exited(): stdout, stderr, last returned error and Runner.Vars must be equal; when an EXIT trap is installed at the end and the shell did not exit, the statement-wise output must be a prefix of the whole-file output and a Vars difference is tolerated",
+	c.Rule = fmt.Sprintf("clause 1 (explicit-state search on one real Runner): histories over %d state-polluting operations (whole-file Run of a program; %d of them are statement-at-a-time Runs, a Run under a cancelled context, or an extra Reset) x %d constructor configurations (Params/Env/Dir/StdIO/Interactive/ExecHandlers/OpenHandler); EVERY history of length <= %d is executed, then Reset, then each of %d observer programs P, compared (stdout, stderr, returned error, sorted Runner.Vars) with P on a brand-new Runner with the same options (histories of length <= %d: replayed on a new Runner for each P separately; longer ones: the observers run in sequence on the one Runner with a Reset before each, rotated start); for lengths %d..%d, the one-operation extensions of the smallest history of each DISTINCT canonical state of the previous level are all executed, and Reset+observers are run from every extension that reaches a canonical state not seen before (state = reflection dump of all non-constructor Runner fields before Reset), for the first %d configuration(s). clause 2: %s; each parsed once, run (a) whole file twice (programs whose two whole-file runs differ are skipped as nondeterministic), (b) Stmt by Stmt on one Runner stopping at Exited(): stdout, stderr, last returned error and Runner.Vars must be equal; when an EXIT trap is installed at the end and the shell did not exit, the statement-wise stdout and stderr must be prefixes of the whole-file ones, the status equal, and a Vars difference is accepted only if making the pending trap run on the statement-wise Runner (Run of an empty File) produces the whole-file Vars",
 		len(pol), c30NonFileOps(), ncfg, fullDepth, len(obs), replayDepth, fullDepth+1, maxDepth, deepCfgs, incrNote)
 	c.Assumptions = []string{
 		"the exec handler is a stub (no real processes); files are opened through the default open handler restricted to a private scratch directory",
